@@ -129,8 +129,14 @@ def _verify_element(iface, name, desc, candidate, vtype):
 
     if isinstance(attr, FunctionType):
 
-        if isinstance(candidate, type) and vtype == 'c':
-            # This is an "unbound method".
+        if (
+            isinstance(candidate, type) and vtype == 'c' and
+            not isinstance(
+                inspect.getattr_static(candidate, name, None), staticmethod
+            )
+        ):
+            # This is an "unbound method" (a @staticmethod has no self
+            # to drop).
             # Only unwrap this if we're verifying implementedBy;
             # otherwise we can unwrap @staticmethod on classes that directly
             # provide an interface.
